@@ -193,6 +193,15 @@ impl GuardedDbFields {
     pub(crate) fn version_set_drop_manifest_for_verif(&mut self) {
         self.version_set.drop_manifest_for_verif();
     }
+
+    /// Verification hook: set the fields `remove_obsolete_files` looks at.
+    pub(crate) fn set_for_remove_obsolete_verif(&mut self, curr_wal_file_number: u64, table_in_use: u64, bad_state: bool) {
+        self.curr_wal_file_number = curr_wal_file_number;
+        self.tables_in_use.insert(table_in_use);
+        if bad_state {
+            self.maybe_bad_database_state = Some(RainDBError::Other("injected background error".to_string()));
+        }
+    }
 }
 
 #[cfg(feature = "verif")]
